@@ -1,5 +1,6 @@
 (* Proofs about model/VolumeCrash.v (C03), part 3: the crash-safety statement, its proof at
-   admissible trigger-free crash points, and the witnesses that refute it elsewhere. *)
+   every crash point that write order allows, and concrete crash points (among them those of
+   the two repaired findings). *)
 From Coq Require Import List NArith ZArith Bool Lia ZifyBool ZifyN ZifyNat.
 From SW Require Import model.Needle proof.NeedleProofs model.VolumeCrash proof.VolumeCrashProofs
   proof.VolumeCrashLoad proof.VolumeCrashSpec.
@@ -125,15 +126,13 @@ Section WithCrc.
       rewrite (inv_dat crc st1 HI), Hs, len_dat_of, cat_app, len_app. cbn [cat map concat snd]. rewrite app_nil_r. lia.
   Qed.
 
-  (* ---------- the property at admissible crash points outside the two trigger sets ---------- *)
-  Theorem crash_safe_partial : forall h dcut icut, Forall (wf_op crc) h ->
+  (* ---------- the property at every admissible crash point ---------- *)
+  Theorem crash_safe : forall h dcut icut, Forall (wf_op crc) h ->
     admissible (p_run h) dcut icut = true ->
-    trig_torn_index icut = false -> trig_tombstone_tail (p_run h) dcut icut = false ->
     crash_safe_at crc h dcut icut.
   Proof.
-    intros h dcut icut Hwf Hadm Htorn Htomb.
-    unfold trig_torn_index in Htorn. assert (Hmod : icut mod NeedleMapEntrySize = 0) by lia. clear Htorn.
-    unfold admissible in Hadm. rewrite Hmod in Hadm. change (0 =? 0) with true in Hadm. cbv iota in Hadm.
+    intros h dcut icut Hwf Hadm.
+    unfold admissible in Hadm.
     remember (icut / NeedleMapEntrySize) as ie eqn:Eie.
     apply andb_true_iff in Hadm. destruct Hadm as [Hadm Hend]. apply andb_true_iff in Hadm. destruct Hadm as [Hicut Hdcut].
     assert (Hie : ie <= len (p_idx (p_run h))) by (unfold NeedleMapEntrySize in *; lia).
@@ -147,25 +146,12 @@ Section WithCrc.
     pose proof (rec_end_prefix st1 st Z HI1 EZ) as Hre. rewrite Hrl in Hre.
     assert (Hge : len (p_dat st1) <= dcut) by lia.
     set (T := takeN (dcut - len (p_dat st1)) X).
-    assert (Hcrash : crash st dcut icut = {| f_dat := p_dat st1 ++ T; f_idx := p_idx st1; f_torn := 0 |}).
+    set (torn := if ie <? len (p_idx st) then icut mod NeedleMapEntrySize else 0).
+    assert (Hcrash : crash st dcut icut = {| f_dat := p_dat st1 ++ T; f_idx := p_idx st1; f_torn := torn |}).
     { unfold crash. rewrite <- Eie. f_equal.
       - rewrite EX. apply takeN_app_ge. assumption.
-      - rewrite EY. apply takeN_app. assumption.
-      - destruct (ie <? len (p_idx st)); [exact Hmod|reflexivity]. }
-    assert (HT : forall l' o r, p_recs st1 = l' ++ [(o, r)] -> a_tomb r = true -> T = []).
-    { intros l' o r Hs Ht. unfold trig_tombstone_tail in Htomb. rewrite <- Eie in Htomb.
-      assert (Hie1 : ie = N.succ (N.of_nat (length l'))).
-      { rewrite <- Hrl, Hs. unfold len. rewrite app_length. cbn [length]. lia. }
-      destruct ie as [|p] eqn:Ep; [lia|]. rewrite <- Ep in *.
-      replace (N.to_nat (N.pred ie)) with (length (idx_of l')) in Htomb
-        by (unfold idx_of; rewrite map_length; lia).
-      rewrite EY, (inv_idx crc st1 HI1), Hs, idx_of_app, <- app_assoc, nth_error_app2 in Htomb by lia.
-      rewrite Nat.sub_diag in Htomb. cbn [app nth_error idx_of map fst snd] in Htomb.
-      unfold entry_of, entry_size in Htomb. cbn [e_size] in Htomb. rewrite Ht in Htomb.
-      replace (TombstoneFileSize <? 0)%Z with true in Htomb by reflexivity. cbn [andb] in Htomb.
-      assert (Hd : dcut = len (p_dat st1)) by lia.
-      unfold T. rewrite Hd, N.sub_diag. apply takeN_0. }
-    destruct (load_core crc st1 T HI1 HT) as [D [Hload HD]].
+      - rewrite EY. apply takeN_app. assumption. }
+    destruct (load_core crc st1 T torn HI1) as [D [Hload HD]].
     exists h1, h2, {| l_dat := D; l_idx := p_idx st1; l_map := p_map st1; l_nwod := false |}.
     split; [assumption|]. split; [rewrite <- Eie; exact Hlen|]. split; [change (p_run h) with st; rewrite Hcrash; assumption|]. split; [reflexivity|]. split.
     - intros k. apply read_core; assumption.
@@ -177,13 +163,12 @@ Section WithCrc.
      the operations h1 whose records are the [icut / 16] surviving index entries *)
   Theorem crash_safe_per_spec : forall h dcut icut, Forall (wf_op crc) h ->
     admissible (p_run h) dcut icut = true ->
-    trig_torn_index icut = false -> trig_tombstone_tail (p_run h) dcut icut = false ->
     exists h1 h2 L, h = h1 ++ h2 /\ snd (s_run h1) = icut / NeedleMapEntrySize /\
       load crc (crash (p_run h) dcut icut) = Loaded L /\ l_nwod L = false /\
       forall k, l_read crc L k = s_read (fst (s_run h1)) k.
   Proof.
-    intros h dcut icut Hwf Ha Ht1 Ht0.
-    destruct (crash_safe_partial h dcut icut Hwf Ha Ht1 Ht0) as [h1 [h2 [L [Hh [Hlen [Hl [Hn [Hr _]]]]]]]].
+    intros h dcut icut Hwf Ha.
+    destruct (crash_safe h dcut icut Hwf Ha) as [h1 [h2 [L [Hh [Hlen [Hl [Hn [Hr _]]]]]]]].
     assert (Hwf1 : Forall (wf_op crc) h1) by (rewrite Hh in Hwf; apply Forall_app in Hwf; tauto).
     destruct (running_reads_spec crc h1 Hwf1) as [Hs1 Hs2].
     exists h1, h2, L. split; [assumption|]. split; [rewrite Hs1; assumption|]. split; [assumption|].
@@ -213,52 +198,49 @@ Qed.
 Lemma w_layout : map fst (p_recs (p_run w_history)) = [8; 48; 96; 128] /\ len (p_dat (p_run w_history)) = 176.
 Proof. vm_compute. split; reflexivity. Qed.
 
-(* finding 0: three index entries survive (the last one is the tombstone of key 1) and the data
-   file holds five more bytes, the beginning of the fourth record: admissible by write order, and
-   the volume comes up read-only *)
-Lemma refuted_tombstone_tail :
-  Forall (wf_op toy_crc) w_history /\ admissible (p_run w_history) 133 48 = true /\
-  trig_tombstone_tail (p_run w_history) 133 48 = true /\
-  ~ crash_safe_at toy_crc w_history 133 48.
-Proof.
-  split; [exact w_history_wf|]. split; [vm_compute; reflexivity|]. split; [vm_compute; reflexivity|].
-  intros [h1 [h2 [L [_ [_ [Hl [Hn _]]]]]]].
-  assert (Hc : exists L0, load toy_crc (crash (p_run w_history) 133 48) = Loaded L0 /\ l_nwod L0 = true).
-  { eexists. split; [vm_compute; reflexivity|reflexivity]. }
-  destruct Hc as [L0 [Hl0 Hn0]]. rewrite Hl0 in Hl. inversion Hl; subst. congruence.
-Qed.
+Definition w_fresh : needle := w_needle 9 7 [102; 114; 101; 115; 104] 0.
+
+(* the crash point of the repaired finding c03-tombstone-tail-readonly: three index entries
+   survive (the last one is the tombstone of key 1) and the data file holds five more bytes, the
+   beginning of the fourth record.  The tail is cut, the volume is writable, key 1 stays deleted. *)
+Lemma witness_tombstone_tail :
+  admissible (p_run w_history) 133 48 = true /\ tombstone_tail (p_run w_history) 133 48 = true /\
+  observe toy_crc (crash (p_run w_history) 133 48) [1; 2; 3] w_fresh =
+    {| o_load := 0; o_readonly := false; o_dat_len := 128; o_idx_len := 48;
+       o_reads := [(2, 0, []); (0, 305419896, [119; 111; 114; 108; 100; 33; 33]); (1, 0, [])];
+       o_write := 0; o_fresh := (0, 7, [102; 114; 101; 115; 104]); o_dat_len2 := 168; o_idx_len2 := 64 |}.
+Proof. vm_compute. repeat split; reflexivity. Qed.
 
 (* the same with a whole fourth record behind the tombstone *)
-Lemma refuted_tombstone_then_record :
-  admissible (p_run w_history) 176 48 = true /\ ~ crash_safe_at toy_crc w_history 176 48.
-Proof.
-  split; [vm_compute; reflexivity|].
-  intros [h1 [h2 [L [_ [_ [Hl [Hn _]]]]]]].
-  assert (Hc : exists L0, load toy_crc (crash (p_run w_history) 176 48) = Loaded L0 /\ l_nwod L0 = true).
-  { eexists. split; [vm_compute; reflexivity|reflexivity]. }
-  destruct Hc as [L0 [Hl0 Hn0]]. rewrite Hl0 in Hl. inversion Hl; subst. congruence.
-Qed.
+Lemma witness_tombstone_then_record :
+  admissible (p_run w_history) 176 48 = true /\ tombstone_tail (p_run w_history) 176 48 = true /\
+  observe toy_crc (crash (p_run w_history) 176 48) [1; 2; 3] w_fresh =
+    {| o_load := 0; o_readonly := false; o_dat_len := 128; o_idx_len := 48;
+       o_reads := [(2, 0, []); (0, 305419896, [119; 111; 114; 108; 100; 33; 33]); (1, 0, [])];
+       o_write := 0; o_fresh := (0, 7, [102; 114; 101; 115; 104]); o_dat_len2 := 168; o_idx_len2 := 64 |}.
+Proof. vm_compute. repeat split; reflexivity. Qed.
 
-(* finding 1: the second index entry is torn after 7 bytes (its record is in the data file in
-   full): Volume.load panics *)
-Lemma refuted_torn_index :
-  admissible (p_run w_history) 96 23 = true /\ trig_torn_index 23 = true /\
-  (forall crc, load crc (crash (p_run w_history) 96 23) = LPanic) /\
-  ~ crash_safe_at toy_crc w_history 96 23.
-Proof.
-  split; [vm_compute; reflexivity|]. split; [vm_compute; reflexivity|].
-  assert (Hp : forall crc, load crc (crash (p_run w_history) 96 23) = LPanic) by (intros; vm_compute; reflexivity).
-  split; [exact Hp|].
-  intros [h1 [h2 [L [_ [_ [Hl _]]]]]]. rewrite Hp in Hl. discriminate.
-Qed.
+(* the crash point of the repaired finding c03-torn-index-entry-panic: the second index entry is
+   torn after 7 bytes.  The torn bytes are dropped and the volume comes up with one entry. *)
+Lemma witness_torn_index :
+  admissible (p_run w_history) 96 23 = true /\ torn_index 23 = true /\
+  observe toy_crc (crash (p_run w_history) 96 23) [1; 2; 3] w_fresh =
+    {| o_load := 0; o_readonly := false; o_dat_len := 48; o_idx_len := 16;
+       o_reads := [(0, 17, [104; 101; 108; 108; 111]); (1, 0, []); (1, 0, [])];
+       o_write := 0; o_fresh := (0, 7, [102; 114; 101; 115; 104]); o_dat_len2 := 88; o_idx_len2 := 32 |}.
+Proof. vm_compute. repeat split; reflexivity. Qed.
 
-(* a crash point of the same history inside both hypotheses of the partial theorem: two index
-   entries, the data file cut nine bytes into the tombstone's record *)
-Lemma partial_not_vacuous :
-  admissible (p_run w_history) 105 32 = true /\ trig_torn_index 32 = false /\
-  trig_tombstone_tail (p_run w_history) 105 32 = false /\
-  observe toy_crc (crash (p_run w_history) 105 32) [1; 2; 3] (w_needle 9 7 [102; 114; 101; 115; 104] 0) =
+(* one more crash point of the same history: two index entries, the data file cut nine bytes
+   into the tombstone's record *)
+Lemma witness_torn_record :
+  admissible (p_run w_history) 105 32 = true /\
+  observe toy_crc (crash (p_run w_history) 105 32) [1; 2; 3] w_fresh =
     {| o_load := 0; o_readonly := false; o_dat_len := 96; o_idx_len := 32;
        o_reads := [(0, 17, [104; 101; 108; 108; 111]); (0, 305419896, [119; 111; 114; 108; 100; 33; 33]); (1, 0, [])];
        o_write := 0; o_fresh := (0, 7, [102; 114; 101; 115; 104]); o_dat_len2 := 136; o_idx_len2 := 48 |}.
 Proof. vm_compute. repeat split; reflexivity. Qed.
+
+(* a crash point that write order excludes (the index is ahead of the data: two entries, the
+   second record missing) is outside the theorem; the safety half still covers it *)
+Lemma not_admissible_example : admissible (p_run w_history) 60 32 = false.
+Proof. vm_compute. reflexivity. Qed.
